@@ -8,7 +8,7 @@ from .common import last
 ID = "C15"
 BUDGET = {"quick": 400, "thorough": 30000}
 EXHAUSTIVE = True
-RULE = ("EXHAUSTIVE, every run: all ordered pairs of a boundary set of 66 JSON values (0, -0.0, ±1, 2^53±1, i64::MIN/MAX, "
+RULE = ("EXHAUSTIVE, every run: all ordered pairs of a boundary set of 71 JSON values (0, -0.0, ±1, 2^53±1, i64::MIN/MAX, "
         "u64::MAX, 2^63, 2^64 as floats, tiny/huge/subnormal floats, numeric and non-numeric strings, booleans, null, arrays, "
         "objects) x the six operators eq ne gt gte lt lte (one template per pair prints all six); and/or over all truthiness "
         "vectors of length 0..4; not and len on every value; plus random integer/float pairs biased to near-equal "
@@ -18,9 +18,9 @@ RULE = ("EXHAUSTIVE, every run: all ordered pairs of a boundary set of 66 JSON v
 DEFINITE_FLOOR = 0.95
 ASSUMPTIONS = ["numeric strings are compared through serde_json's number parser; strings whose parse is inexact in serde_json (> 15 digits with exponent) are not in the set"]
 
-INTS = [0, 1, -1, 2, 2 ** 53 - 1, 2 ** 53, 2 ** 53 + 1, 2 ** 63 - 1, 2 ** 63, 2 ** 63 + 1, 2 ** 64 - 1, -(2 ** 63), -(2 ** 63) + 1, -(2 ** 53) - 1, 10, -10]
+INTS = [0, 1, -1, 2, 2 ** 53 - 1, 2 ** 53, 2 ** 53 + 1, 2 ** 63 - 1, 2 ** 63, 2 ** 63 + 1, 2 ** 64 - 1, -(2 ** 63), -(2 ** 63) + 1, -(2 ** 53) - 1, -(2 ** 53), -(2 ** 63) + 1025, 10, -10]
 FLOATS = [0.0, -0.0, 1.0, -1.0, 0.5, 1.5, 2.0 ** 53, 2.0 ** 53 + 2, 2.0 ** 63, 2.0 ** 64, -(2.0 ** 63), 9.223372036854775e18, 1.8446744073709552e19,
-          5e-324, 2.2250738585072014e-308, 1.7976931348623157e308, -1.7976931348623157e308, 1e-7, 0.1, 10.0, -10.0, 9007199254740993.0]
+          5e-324, 2.2250738585072014e-308, 1.7976931348623157e308, -1.7976931348623157e308, 1e-7, 0.1, 10.0, -10.0, 9007199254740993.0, -9007199254740992.0, -9.223372036854775e18]
 STRS = ["", "a", "b", "ab", "B", "é", "10", "9", "-1", "1.5", "1e3", "0", "abc", " 1", "1 ", "0x10", "18446744073709551615", "9007199254740993", "1E400"]
 OTHERS = [True, False, None, [], [1], [1, 2], {}, {"a": 1}, {"a": 2}]
 
